@@ -153,33 +153,35 @@ def run(chk):
                 def pred(t, yy, mk=mk, scls=scls):
                     return GaussianProcess(mk(t), jnp.asarray(x), diag=t["noise"], mean=t["mean"], solver=scls).predict(yy, jnp.asarray(xt), return_var=True)
                 tj = {k: jnp.asarray(v) for k, v in theta.items()}
-                g_rev = jax.grad(logp)(tj, jnp.asarray(y))
-                g_fwd = jax.jacfwd(logp)(tj, jnp.asarray(y))
-                gy = np.asarray(jax.grad(logp, argnums=1)(tj, jnp.asarray(y)))
-                jm, jv = jax.jacfwd(pred)(tj, jnp.asarray(y))
-                info = dict(kernel=kname, solver=scls.__name__, n=n, theta=theta, x=x.tolist(), y=y.tolist())
-                for key in theta:
-                    want = fd(lambda t: np_logp(kfun, x, y, t), theta, key)
-                    for mode, g in (("grad", g_rev), ("jacfwd", g_fwd)):
-                        n_eval += 1
-                        ok, dv = close([float(g[key])], [want], 2e-6)
-                        if not ok:
-                            oracle_bad.append(dict(info, op=f"{mode} of log_probability w.r.t. {key}", expected=float(want), observed=float(g[key])))
-                    wm = fd(lambda t: np_pred(kfun, x, y, xt, t)[0], theta, key)
-                    wv = fd(lambda t: np_pred(kfun, x, y, xt, t)[1], theta, key)
-                    n_eval += 2
-                    okm, _ = close(np.asarray(jm[key]), wm, 5e-6)
-                    okv, _ = close(np.asarray(jv[key]), wv, 5e-6)
-                    if not okm:
-                        oracle_bad.append(dict(info, op=f"jacfwd of predictive mean w.r.t. {key}", expected=wm.tolist(), observed=np.asarray(jm[key]).tolist()))
-                    if not okv:
-                        oracle_bad.append(dict(info, op=f"jacfwd of predictive variance w.r.t. {key}", expected=wv.tolist(), observed=np.asarray(jv[key]).tolist()))
-                K = kfun(x[:, None] - x[None, :], theta) + theta["noise"] * np.eye(n)
-                want_gy = -np.linalg.solve(K, y - theta["mean"])
-                n_eval += 1
-                ok, dv = close(gy, want_gy, 1e-8)
-                if not ok:
-                    oracle_bad.append(dict(info, op="grad of log_probability w.r.t. y", expected=want_gy.tolist(), observed=gy.tolist()))
+                # data: a generic vector and (first repetition) data that sit EXACTLY on the mean, where the whitened residual vanishes
+                for yv, ytag in [(y, "generic")] + ([(np.full(n, theta["mean"]), "y == mean exactly")] if rep == 0 else []):
+                    g_rev = jax.grad(logp)(tj, jnp.asarray(yv))
+                    g_fwd = jax.jacfwd(logp)(tj, jnp.asarray(yv))
+                    gy = np.asarray(jax.grad(logp, argnums=1)(tj, jnp.asarray(yv)))
+                    jm, jv = jax.jacfwd(pred)(tj, jnp.asarray(yv))
+                    info = dict(kernel=kname, solver=scls.__name__, n=n, theta=theta, x=x.tolist(), y=yv.tolist(), data=ytag)
+                    for key in theta:
+                        want = fd(lambda t: np_logp(kfun, x, yv, t), theta, key)
+                        for mode, g in (("grad", g_rev), ("jacfwd", g_fwd)):
+                            n_eval += 1
+                            ok, dv = close([float(g[key])], [want], 2e-6)
+                            if not ok:
+                                oracle_bad.append(dict(info, op=f"{mode} of log_probability w.r.t. {key}", expected=float(want), observed=float(g[key])))
+                        wm = fd(lambda t: np_pred(kfun, x, yv, xt, t)[0], theta, key)
+                        wv = fd(lambda t: np_pred(kfun, x, yv, xt, t)[1], theta, key)
+                        n_eval += 2
+                        okm, _ = close(np.asarray(jm[key]), wm, 5e-6)
+                        okv, _ = close(np.asarray(jv[key]), wv, 5e-6)
+                        if not okm:
+                            oracle_bad.append(dict(info, op=f"jacfwd of predictive mean w.r.t. {key}", expected=wm.tolist(), observed=np.asarray(jm[key]).tolist()))
+                        if not okv:
+                            oracle_bad.append(dict(info, op=f"jacfwd of predictive variance w.r.t. {key}", expected=wv.tolist(), observed=np.asarray(jv[key]).tolist()))
+                    K = kfun(x[:, None] - x[None, :], theta) + theta["noise"] * np.eye(n)
+                    want_gy = -np.linalg.solve(K, yv - theta["mean"])
+                    n_eval += 1
+                    ok, dv = close(gy, want_gy, 1e-8)
+                    if not ok:
+                        oracle_bad.append(dict(info, op="grad of log_probability w.r.t. y", expected=want_gy.tolist(), observed=gy.tolist()))
                 distinct.add((kname, scls.__name__, rep))
     # ---- (3) derivatives with respect to coordinates stay finite at coincident points
     for kname, kern, dim in (("ExpSquared/L2 2-D", kernels.ExpSquared(jnp.asarray(1.1)), 2),
